@@ -882,6 +882,20 @@ class BuiltinsMixin:
         self.run.assume(z3.And(rel, z3.Length(r) <= z3.Length(e)))
         return SStr(r, self.kind_of(s))
 
+    def m_text_ljust(self, s, width, fill=None):
+        """s.ljust(width[, fill]) == s + fill * max(0, width - len(s))"""
+        width = self.resolve(width)
+        fill = self.resolve(fill)
+        if fill is None:
+            fill = " " if self.kind_of(s) == "str" else b" "
+        if isinstance(s, (str, bytes)) and isinstance(width, int) and isinstance(fill, (str, bytes)):
+            return s.ljust(width, fill)
+        if not isinstance(fill, (str, bytes)) or len(fill) != 1:
+            raise Unsupported("ljust with a symbolic fill character")
+        n = self.to_z3(width, "int") - z3.Length(self.to_z3(s))
+        pad = self.str_repeat(SStr(self.to_z3(fill), self.kind_of(s)), self.wrap_int(z3.If(n > 0, n, 0)))
+        return self.wrap_str(z3.Concat(self.to_z3(s), self.to_z3(pad)), self.kind_of(s))
+
     def m_text_lstrip(self, s, *chars):
         return self._strip_model(s, "lstrip", chars)
 
